@@ -232,9 +232,24 @@ pub fn vclock_probes(c1: &VClock<A>, c2: &VClock<A>, c3: &VClock<A>, a: &mut Arg
     t.call("vclock.get", &[sx(c1), act.to_string(), c1.get(&act).to_string()]);
     let d2 = Dot::new(a.below(3), a.below(4));
     t.call("dot.cmp", &[sx(&d), sx(&d2), ord_sx(d.partial_cmp(&d2))]);
-    let ds: Vec<Dot<A>> = (0..a.below(4)).map(|_| Dot::new(a.below(3), 1 + a.below(3))).collect();
+    // dots with counter 0 are legal inputs (VClock::dot of an unseen actor yields one)
+    let ds: Vec<Dot<A>> = (0..a.below(4)).map(|_| Dot::new(a.below(3), a.below(4))).collect();
     let fi: VClock<A> = ds.iter().cloned().collect();
     t.call("vclock.from_iter", &[sx(&ds), sx(&fi)]);
+    let fd: VClock<A> = VClock::from(d.clone());
+    t.call("vclock.from_dot", &[sx(&d), sx(&fd)]);
+    let cd = c1.dot(act);
+    t.call("vclock.dot", &[sx(c1), act.to_string(), sx(&cd)]);
+    let fcd: VClock<A> = VClock::from(cd.clone());
+    t.call("vclock.from_dot", &[sx(&cd), sx(&fcd)]);
+    // a snapshot of the clock over a roster that includes unseen actors
+    let roster: Vec<Dot<A>> = (0..4).map(|x| c1.dot(x)).collect();
+    let snap: VClock<A> = roster.iter().cloned().collect();
+    t.call("vclock.from_iter", &[sx(&roster), sx(&snap)]);
+    t.call("dot.inc", &[sx(&d), sx(&d.inc())]);
+    let mut di = d.clone();
+    di.apply_inc();
+    t.call("dot.inc", &[sx(&d), sx(&di)]);
 }
 
 // ---------------------------------------------------------------- GCounter / PNCounter
@@ -1067,9 +1082,9 @@ fn raw_mm(a: &mut Args) -> map::Op<u64, MVReg<u64, A>, A> {
         map::Op::Up { dot: Dot::new(a.below(4), a.below(5)), key: a.below(2), op: raw_mv(a) }
     }
 }
-map_sut!(MapMV, "mapmv", leaf_mv, raw_mv, mvreg_reads);
-map_sut!(MapOr, "mapor", leaf_or, raw_or, orswot_reads);
-map_sut!(MapMM, "mapmm", leaf_mm, raw_mm, mapmv_reads);
+map_sut!(MapMV, "mapmv", leaf_mv, raw_mv, nested_mvreg_reads);
+map_sut!(MapOr, "mapor", leaf_or, raw_or, nested_orswot_reads);
+map_sut!(MapMM, "mapmm", leaf_mm, raw_mm, nested_mapmv_reads);
 
 // ---------------------------------------------------------------- GList / List
 impl Sut for GList<u64> {
@@ -1516,7 +1531,27 @@ pub fn map_reads<V: map::Val<A>>(s: &Map<u64, V, A>, leaf: &dyn Fn(&V) -> String
     format!("map add={} rm={} len={} entries={:?}", sx(&r.add_clock), sx(&r.rm_clock), s.len().val, es)
 }
 pub fn mapmv_reads(s: &Map<u64, MVReg<u64, A>, A>) -> String {
-    map_reads(s, &mvreg_reads)
+    map_reads(s, &nested_mvreg_reads)
+}
+// Reads of a value NESTED in a Map: what an application observes and may build ops from -
+// members / values / inner keys and the remove contexts of the elements.  The nested value's
+// own add context (its private clock) is not part of it: edits of a nested value take their add
+// context from the enclosing top-level Map (Map::update), and property C07 scopes the context
+// guarantees to top-level replicas.  (Structural equality of the whole state is C20's business.)
+pub fn nested_orswot_reads(s: &Orswot<u64, A>) -> String {
+    let mut ms: Vec<(u64, String)> = s.iter().map(|c| (*c.val, sx(&c.rm_clock))).collect();
+    ms.sort();
+    format!("orswot members={:?}", ms)
+}
+pub fn nested_mvreg_reads(s: &MVReg<u64, A>) -> String {
+    let mut v = s.read().val.clone();
+    v.sort();
+    format!("mvreg vals={:?}", v)
+}
+pub fn nested_mapmv_reads(s: &Map<u64, MVReg<u64, A>, A>) -> String {
+    let mut es: Vec<(u64, String, String)> = s.iter().map(|c| (*c.val.0, sx(&c.rm_clock), nested_mvreg_reads(c.val.1))).collect();
+    es.sort();
+    format!("map len={} entries={:?}", s.len().val, es)
 }
 pub fn list_reads(s: &List<u64, A>) -> String {
     let v: Vec<u64> = s.read::<Vec<&u64>>().into_iter().cloned().collect();
